@@ -128,42 +128,47 @@ type retState struct {
 
 // Exec verifies one function against its contract.
 type Exec struct {
-	w             *World
-	ctx           *Ctx
-	fn            *FuncInfo
-	contract      *Contract
-	tenv          typeEnv
-	sliceElems    map[Sort]Sort
-	obls          []*Obligation
-	frames        []*frame
-	old           *State
-	genN          int
-	genConsts     map[string]Term
-	kindCount     map[string]int
-	boxed         map[*types.Var]bool
-	paramTerms    []Term
-	paramNames    []string
-	paramVars     []*types.Var
-	resultVars    []*types.Var
-	failures      []string // engine errors on some path
-	prop          string   // property filter ("" = all)
-	globals       map[*types.Var]bool
-	inlineSeen    map[*types.Func]int
-	siteCount     map[string]int
-	fnConsts      map[string]Term
-	evCount       int
-	opts          Options
-	loopHeads     int
-	curPos        token.Pos
-	specLocals    map[string]*types.Var // name -> local visible for loop invariants
-	loopStack     []*loopCtx
-	modDepth      int
-	inlined       []string
-	boxedDone     map[*FuncInfo]bool
-	usedContracts map[string]bool
-	canaryDone    bool
-	entrySt       *State
-	events        []event
+	w                 *World
+	ctx               *Ctx
+	fn                *FuncInfo
+	contract          *Contract
+	tenv              typeEnv
+	sliceElems        map[Sort]Sort
+	obls              []*Obligation
+	frames            []*frame
+	old               *State
+	genN              int
+	genConsts         map[string]Term
+	kindCount         map[string]int
+	boxed             map[*types.Var]bool
+	paramTerms        []Term
+	paramNames        []string
+	paramVars         []*types.Var
+	resultVars        []*types.Var
+	failures          []string // engine errors on some path
+	prop              string   // property filter ("" = all)
+	globals           map[*types.Var]bool
+	inlineSeen        map[*types.Func]int
+	siteCount         map[string]int
+	fnConsts          map[string]Term
+	evCount           int
+	opts              Options
+	loopHeads         int
+	curPos            token.Pos
+	specLocals        map[string]*types.Var // name -> local visible for loop invariants
+	loopStack         []*loopCtx
+	pendingWriteBacks []func()
+	maybeNil          map[string]string
+	rvals             map[string]*rdesc
+	boxInfo           map[string]boxRec
+	rfieldNames       map[string]string
+	modDepth          int
+	inlined           []string
+	boxedDone         map[*FuncInfo]bool
+	usedContracts     map[string]bool
+	canaryDone        bool
+	entrySt           *State
+	events            []event
 }
 
 type Options struct {
@@ -171,7 +176,7 @@ type Options struct {
 }
 
 func newExec(w *World, fn *FuncInfo, c *Contract) *Exec {
-	x := &Exec{w: w, ctx: NewCtx(), fn: fn, contract: c, sliceElems: map[Sort]Sort{}, genConsts: map[string]Term{}, kindCount: map[string]int{}, boxed: map[*types.Var]bool{}, globals: map[*types.Var]bool{}, inlineSeen: map[*types.Func]int{}, siteCount: map[string]int{}, fnConsts: map[string]Term{}, tenv: typeEnv{}, specLocals: map[string]*types.Var{}}
+	x := &Exec{rfieldNames: map[string]string{}, w: w, ctx: NewCtx(), fn: fn, contract: c, sliceElems: map[Sort]Sort{}, genConsts: map[string]Term{}, kindCount: map[string]int{}, boxed: map[*types.Var]bool{}, globals: map[*types.Var]bool{}, inlineSeen: map[*types.Func]int{}, siteCount: map[string]int{}, fnConsts: map[string]Term{}, tenv: typeEnv{}, specLocals: map[string]*types.Var{}}
 	x.ctx.StrLit("")
 	return x
 }
@@ -283,6 +288,9 @@ func (x *Exec) name(st *State, hint string, t Term) Term {
 	}
 	c := x.ctx.Fresh(hint, t.Sort)
 	st.define(eq(c, t))
+	if why, ok := x.maybeNil[t.S]; ok {
+		x.maybeNil[c.S] = why
+	}
 	return c
 }
 
@@ -542,7 +550,17 @@ func (x *Exec) box(st *State, v Term, from types.Type) Term {
 	bc := x.name(st, "boxed", b)
 	un := x.ctx.App("unbox_"+sortKey(v.Sort), v.Sort, bc)
 	st.assume(and(eq(mk(SInt, "dyn", bc), x.tagOf(from)), eq(un, v), mk(SBool, ">", bc, intLit(0))))
+	if x.boxInfo == nil {
+		x.boxInfo = map[string]boxRec{}
+	}
+	x.boxInfo[bc.S] = boxRec{from, v}
 	return bc
+}
+
+// boxRec remembers what a boxed term was made from, so that assertions on it fold statically.
+type boxRec struct {
+	typ types.Type
+	val Term
 }
 
 func (x *Exec) unbox(v Term, to types.Type) Term {
